@@ -57,7 +57,53 @@ pub fn check_case(rep: &mut Report, model: &mut Model, kc: &KeyCtx, p: &[u8], st
         }
         rep.branch("enc.trace");
     }
+    if with_model && stack == L_COMP {
+        // the compression reader model over the brotli crate's own decoding of every block (table);
+        // reads are replayed with the lengths the implementation returned (its decompressor may
+        // return short reads, the model reads fully)
+        let comp = &bytes[junk..];
+        if let Some(blocks) = comp_blocks(comp) {
+            let hist2: Vec<Value> = hist.iter().zip(&res).map(|(h, r)| match (h, r) {
+                (HOp::Read(_), HRes::Data(d)) => json!({"op":"read","n": d.len()}),
+                _ => h.to_json(),
+            }).collect();
+            let m = model.call(json!({"cmd":"comp.trace","stream":hx(comp),"blocks":blocks,"history":hist2}));
+            rep.traces_validated += 1;
+            let want: Vec<Value> = res.iter().map(hres_json).collect();
+            if m["results"].as_array() != Some(&want) || m["init"] != "ok" {
+                let at = m["results"].as_array().map(|a| a.iter().zip(&want).position(|(x, y)| x != y)).flatten();
+                rep.violation("corr", "corr:C11/comp.trace", json!({}),
+                    &format!("compression reader model differs from the implementation at op {at:?}"),
+                    json!({"case": case(&hist), "impl": want, "model": m}));
+                return false;
+            }
+            rep.branch("comp.trace");
+        }
+    }
     true
+}
+
+/// (compressed block, plaintext) pairs of a compressed stream, decoded with the brotli crate directly
+fn comp_blocks(comp: &[u8]) -> Option<Vec<Value>> {
+    use std::io::Read;
+    if comp.len() < 4 { return None; }
+    let pos = comp.len() - 4;
+    let len = u32::from_le_bytes(comp[pos..].try_into().ok()?) as usize;
+    if len > pos || len < 12 { return None; }
+    let t = &comp[pos - len..pos];
+    let n = u64::from_le_bytes(t[..8].try_into().ok()?) as usize;
+    if t.len() != 8 + 4 * n + 4 { return None; }
+    let mut off = 0usize;
+    let mut v = vec![];
+    for i in 0..n {
+        let sz = u32::from_le_bytes(t[8 + 4 * i..12 + 4 * i].try_into().ok()?) as usize;
+        let c = comp.get(off..off + sz)?;
+        let mut p = vec![];
+        brotli::Decompressor::new(c, 4096).read_to_end(&mut p).ok()?;
+        v.push(json!({"c": hx(c), "p": hx(&p)}));
+        off += sz;
+    }
+    Some(v)
 }
 
 pub fn run(ctx: &Ctx) -> Report {
@@ -106,7 +152,7 @@ pub fn run(ctx: &Ctx) -> Report {
         for len in 0..=(3 * CONSTS.block + 5) {
             let p = rng.bytes(len, (len % 4) as u8);
             for stack in [L_COMP, L_COMP | L_ENC] {
-                check_case(&mut rep, &mut model, &kc, &p, stack, 0, &mut rng, 12, None, false);
+                check_case(&mut rep, &mut model, &kc, &p, stack, 0, &mut rng, 12, None, stack == L_COMP);
                 if rep.full() { return rep; }
             }
         }
